@@ -2,13 +2,25 @@ package generator
 
 import (
 	"fmt"
+	"sort"
 
 	"github.com/jmattheis/goverter/method"
+	"github.com/jmattheis/goverter/xtype"
 )
 
 func validateMethods(lookup *method.Index[generatedMethod]) error {
-	for _, hits := range lookup.Exact {
-		for _, entry := range hits {
+	signatures := make([]xtype.Signature, 0, len(lookup.Exact))
+	for signature := range lookup.Exact {
+		signatures = append(signatures, signature)
+	}
+	sort.Slice(signatures, func(i, j int) bool {
+		if signatures[i].Source != signatures[j].Source {
+			return signatures[i].Source < signatures[j].Source
+		}
+		return signatures[i].Target < signatures[j].Target
+	})
+	for _, signature := range signatures {
+		for _, entry := range lookup.Exact[signature] {
 			genMethod := entry.Item
 
 			if genMethod.Explicit && len(genMethod.RawFieldSettings) > 0 {
